@@ -776,26 +776,22 @@ impl<'a, 'tcx> Bx<'a, 'tcx> {
         let plain = |to: BasicBlock| obj! {"to": J::I(to.as_usize() as i128), "r": J::B(true)};
         let mut cond = false;
         let mut switch = false;
-        let cls = format!("{:?}", term.kind);
-        let cls = cls.split(|c: char| !c.is_alphanumeric()).next().unwrap_or("").to_string();
-        let cls = match &term.kind {
-            TerminatorKind::Goto { .. } => "Goto".to_string(),
-            TerminatorKind::SwitchInt { .. } => "SwitchInt".to_string(),
-            TerminatorKind::Return => "Return".to_string(),
-            TerminatorKind::Unreachable => "Unreachable".to_string(),
-            TerminatorKind::Drop { .. } => "Drop".to_string(),
-            TerminatorKind::Call { .. } => "Call".to_string(),
-            TerminatorKind::TailCall { .. } => "TailCall".to_string(),
-            TerminatorKind::Assert { .. } => "Assert".to_string(),
-            TerminatorKind::Yield { .. } => "Yield".to_string(),
-            TerminatorKind::FalseEdge { .. } => "FalseEdge".to_string(),
-            TerminatorKind::FalseUnwind { .. } => "FalseUnwind".to_string(),
-            TerminatorKind::InlineAsm { .. } => "InlineAsm".to_string(),
-            TerminatorKind::UnwindResume => "UnwindResume".to_string(),
-            TerminatorKind::UnwindTerminate(..) => "UnwindTerminate".to_string(),
-            TerminatorKind::CoroutineDrop => "CoroutineDrop".to_string(),
-            #[allow(unreachable_patterns)]
-            _ => cls,
+        let cls: &'static str = match &term.kind {
+            TerminatorKind::Goto { .. } => "Goto",
+            TerminatorKind::SwitchInt { .. } => "SwitchInt",
+            TerminatorKind::Return => "Return",
+            TerminatorKind::Unreachable => "Unreachable",
+            TerminatorKind::Drop { .. } => "Drop",
+            TerminatorKind::Call { .. } => "Call",
+            TerminatorKind::TailCall { .. } => "TailCall",
+            TerminatorKind::Assert { .. } => "Assert",
+            TerminatorKind::Yield { .. } => "Yield",
+            TerminatorKind::FalseEdge { .. } => "FalseEdge",
+            TerminatorKind::FalseUnwind { .. } => "FalseUnwind",
+            TerminatorKind::InlineAsm { .. } => "InlineAsm",
+            TerminatorKind::UnwindResume => "UnwindResume",
+            TerminatorKind::UnwindTerminate(..) => "UnwindTerminate",
+            TerminatorKind::CoroutineDrop => "CoroutineDrop",
         };
         match &term.kind {
             TerminatorKind::Goto { target } => succs.push(plain(*target)),
